@@ -5,6 +5,12 @@ Definition ops : list op := [
   ("crc", fun a => match a with [VB b] => VB (Crc.compute_crc b) | _ => vbad end);
   (* crc.spec b -> big-endian bytes of the textbook register (oracle side) *)
   ("crc.spec", fun a => match a with [VB b] => VB (to_be32 (Crc32.crc b)) | _ => vbad end);
+  (* crc.tab b -> big-endian bytes of the table-driven formulation of the specification *)
+  ("crc.tab", fun a => match a with [VB b] => VB (to_be32 (Crc32.crc_tab b)) | _ => vbad end);
+  (* crc.singles L -> the CRCs (4 bytes each, concatenated) of all 8L single-bit strings of L bytes, bit positions ascending;
+     modelexec answers from Crc32.singles_fast (linear time; Proofs/CrcLinear.v), goexec calls ComputeCRC 8L times *)
+  ("crc.singles", fun a => match a with
+     | [VI l] => VB (flat_map to_be32 (Crc32.singles_fast (N.to_nat (zN l)))) | _ => vbad end);
   (* crc.residue b -> the four bytes of ComputeCRC(b ++ ComputeCRC(b)) : must be zero *)
   ("crc.residue", fun a => match a with [VB b] => VB (Crc.compute_crc (app b (Crc.compute_crc b))) | _ => vbad end)
 ].
